@@ -178,6 +178,30 @@ pub fn run(tier: Tier, seed: u64) -> i32 {
         }
     }
     rep.add(reg);
+    // freshly formatted volumes (nothing but the root directory allocated: the recorded free count is the largest valid
+    // one) and volumes holding only empty files: the read-only calls in every order of two
+    if !rep.failed() {
+        let ro_ops = vec![Op::Stats, Op::Status, Op::Labels, Op::List { via: 0 }, Op::OpenFile { via: 0, path: "empty one".into(), keep: 1 }, Op::Read { h: 0, len: 10 }];
+        let mut cases: Vec<RoCase> = Vec::new();
+        for p in [1usize, 8, 12, 13, 14] {
+            for with_files in [false, true] {
+                for a in 0..ro_ops.len() {
+                    for b2 in 0..ro_ops.len() {
+                        let setup = if with_files { vec![Op::CreateFile { via: 0, path: "empty one".into(), keep: 0 }, Op::CreateFile { via: 0, path: "EMPTY2".into(), keep: 0 }] } else { vec![] };
+                        cases.push(RoCase { vol: VolCfg::from_preset(p), setup, ro: vec![ro_ops[a].clone(), ro_ops[b2].clone(), Op::Stats], dirty: false, fsinfo_unknown: false, end_by_drop: (a + b2) % 2 == 1, odd_hint: 0, odd_count: 0, abandon_setup: false, io_error_bit: false, logger: false, odd_bpb: 0 });
+                    }
+                }
+            }
+        }
+        let mut blk = run::run_indexed("fresh_and_nearly_empty_volumes_every_pair_of_queries", cases.len() as u64, |i, blk| {
+            let c = &cases[i as usize];
+            let out = eval(c);
+            blk.record(&out, || serde_json::to_value(c).unwrap());
+            out.violation.map(|m| Failure { message: m, case: serde_json::to_value(c).unwrap(), kind: "readonly".into() })
+        });
+        blk.exhaustive = true;
+        rep.add(blk);
+    }
     if !rep.failed() {
         rep.add(run::run_random("random_readonly_sessions", seed, tier.pick(24000, 200000), "readonly", || run::boxed(strategy()), |c: &RoCase| eval(c)));
     }
